@@ -32,12 +32,12 @@ ASSUMPTIONS = [
     "policy 'interactive' needs a terminal and is outside the property's quantifier",
     "the sdkconfig-policy value clause is a per-entry predicate, not a full prediction (the order of injection is an implementation detail)",
 ]
-BUDGET = {"quick": {"examples": 6400}, "thorough": {"examples": 160000, "deadline_s": 1500}}
+BUDGET = {"quick": {"examples": 6400}, "thorough": {"examples": 160000, "deadline_s": 900}}
 
 CFG = gen.cfg(max_syms=12, p_choice=14, p_select=20, p_imply=16, p_set=16, p_wset=16, p_multi_def=12)
 KINDS = [(55, "set"), (8, "unset"), (8, "reset"), (3, "reset_menu"), (10, "load_hand")]
 EDIT_KINDS = [(70, "set"), (15, "unset"), (15, "reset")]
-MUTATIONS = ("none", "none", "default-value", "default-cond", "range", "add-depends", "add-option", "remove-option", "conditional-prompt", "remove-member", "add-member")
+MUTATIONS = ("none", "none", "default-value", "default-value", "default-value", "default-cond", "range", "add-depends", "add-option", "remove-option", "conditional-prompt", "remove-member", "add-member")
 
 
 @st.composite
@@ -53,6 +53,7 @@ def _cases(draw):
         "ops": history,
         "edits": edits,
         "mutation": [d.pick(MUTATIONS), d.int(0, 10**6), d.int(0, 10**6), d.int(0, 10**6)],
+        "mutation2": [d.pick(("default-value", "default-value", "default-cond", "range")), d.int(0, 10**6), d.int(0, 10**6), d.int(0, 10**6)] if d.chance(40) else None,
         "parser": 2 if d.chance(15) else 1,
     }
 
@@ -118,8 +119,33 @@ def _referenced(tree):
     return refs
 
 
-def mutate(tree, mutation):
-    """-> (new tree, description) or (None, reason)"""
+def mutate_case(tree, case):
+    """First mutation, then (for part of the cases) a second one of the value / condition kinds on top of it: two defaults
+    that changed between the versions interact (a kept stored default can make another option visible)."""
+    m2 = case.get("mutation2")
+    m1 = case["mutation"]
+    if m2 and m1[0] == "default-value":
+        # aim the first change at a gate: an option with a default on which other options with defaults depend
+        g = dep_graph(tree)
+        mem = _members(tree)
+        plain = [e for e in gen.configs(tree) if e["name"] not in mem and e["defaults"]]
+        names = [e["name"] for e in plain]
+        gates = [i for i, e in enumerate(plain) if any(n != e["name"] and e["name"] in g.get(n, ()) for n in names)]
+        if gates:
+            m1 = [m1[0], gates[m1[1] % len(gates)], m1[2], m1[3]]
+    new, desc = mutate(tree, m1)
+    if new is None or not m2 or desc == "none":
+        return new, desc
+    target = desc.split(":", 1)[1] if ":" in desc else None
+    new2, desc2 = mutate(new, m2, near=target)
+    if new2 is None or desc2 == "none":
+        return new, desc
+    return new2, desc + " + " + desc2
+
+
+def mutate(tree, mutation, near=None):
+    """-> (new tree, description) or (None, reason).  `near` = name of an option: value mutations prefer the options that
+    depend on it (two related defaults changed between the versions)."""
     kind, a, b, c = mutation
     if kind == "none":
         return gen.clone(tree), "none"
@@ -132,6 +158,10 @@ def mutate(tree, mutation):
         cands = [e for e in plain if e["defaults"]]
         if not cands:
             return None, "no-default"
+        if near is not None:
+            g = dep_graph(t2)
+            related = [e for e in cands if e["name"] != near and near in reach(g, e["name"])]
+            cands = related or cands
         e = cands[a % len(cands)]
         dv = e["defaults"][b % len(e["defaults"])]
         if e["type"] == "bool":
@@ -231,7 +261,7 @@ def _remove(body, name):
 
 
 def sample(case):
-    new, desc = mutate(case["tree"], case["mutation"])
+    new, desc = mutate_case(case["tree"], case)
     return {
         "old": render(case["tree"], "<dir>"),
         "ops": case["ops"],
@@ -286,7 +316,7 @@ def check(case) -> Result:
     res = Result()
     old = case["tree"]
     parser = case.get("parser", 1)
-    new, desc = mutate(old, case["mutation"])
+    new, desc = mutate_case(old, case)
     if new is None:
         res.label("mutation-unplaceable:" + case["mutation"][0])
         new, desc = gen.clone(old), "none"
